@@ -70,6 +70,7 @@ Definition lookup_dispatch (t : N) : option dispatch_kind :=
 
 Inductive event :=
 | EReply (typ : N) (lv_ok : bool)   (* a reply frame of this type was written *)
+| ERaw                              (* a raw (unframed) byte stream may follow; connection ends *)
 | ECrash.
 
 (* fuel = number of bytes + 1 is always enough: every iteration consumes >= 1 byte *)
@@ -104,8 +105,9 @@ Fixpoint serve (fuel : nat) (s : bytes) : list event :=
       | Some DNoLVRet => [EReply (t + 1) true]
       | Some DRawRet =>
           match read_lv s1 with
+          | LvOk _ _ _ => [ERaw]
+          | LvErr _ _ => []
           | LvCrash => [ECrash]
-          | _ => []
           end
       end
     end
